@@ -12,6 +12,8 @@ struct KllFam {
   static SK make(int cfg) { return SK(static_cast<uint16_t>(cfg)); }
   static std::string cfg_text(int cfg) { return "k=" + std::to_string(cfg); }
   static bool allow_rt() { return false; }
+  static int len_quantum(int cfg) { (void)cfg; return 0; }
+  static int chunk_quantum(int cfg) { (void)cfg; return 0; }
   static bool has_exact_region() { return false; }
   static bool exact_claim(const SK&, double) { return false; }
   static SK roundtrip(const SK& s) { return s; }
